@@ -603,20 +603,33 @@ class NumpyShim:
 
     degrees = rad2deg
 
-    def unwrap(self, a, **k):
+    def unwrap(self, a, discont=None, axis=-1, period=2 * rnp.pi, **k):
         if has_sym(a):
-            # contract used: element 0 is unchanged, every element changes by an integer multiple of 2*pi
-            # (a deterministic function of its argument: the same symbols for the same input)
-            import hashlib
+            # numpy's documented algorithm, element by element (1-D): differences are reduced to [-period/2, period/2] and the
+            # accumulated correction is added wherever a jump is at least `discont`
+            from fractions import Fraction
+            a = rnp.asarray(a, dtype=object)
+            if a.ndim != 1:
+                raise Unsupported("unwrap of a %d-D symbolic array" % a.ndim)
+            P = SR(toreal(rv(Fraction(period) if not is_sym(period) else period))) if not is_sym(period) else plain(period)
+            half = P / 2
+            disc = half if discont is None else (plain(discont) if is_sym(discont) else SR(toreal(rv(Fraction(discont)))))
             out = [a[0]]
-            key = hashlib.sha1()
-            key.update(str(tz(plain(a[0])).sexpr()).encode())
+            acc = SR(z3.RealVal(0))
             for i in range(1, len(a)):
-                key.update(str(tz(plain(a[i])).sexpr()).encode())
-                kk = z3.Int("unwrapk_%s_%d" % (key.hexdigest()[:10], i))
-                out.append(a[i] + SR(z3.ToReal(kk)) * (2 * rnp.pi))
+                dd = plain(a[i]) - plain(a[i - 1])
+                x = dd + half
+                q = SR(z3.ToReal(z3.ToInt(toreal(tz(x / P)))))      # floor
+                ddmod = x - P * q - half
+                ddmod = ite((ddmod == -half) & (dd > 0), half, ddmod)
+                corr = ddmod - dd
+                neg = SR(z3.RealVal(0)) - dd
+                absdd = ite(dd >= 0, dd, neg)
+                corr = ite(absdd < disc, SR(z3.RealVal(0)), corr)
+                acc = acc + corr
+                out.append(plain(a[i]) + acc)
             return oarr(out)
-        return rnp.unwrap(a, **k)
+        return rnp.unwrap(a, discont=discont, axis=axis, period=period, **k)
 
     def isfinite(self, a):
         if has_sym(a):
